@@ -72,11 +72,29 @@ def evaluate(ctx, boxes, cfgs, big=()):
                 corr.violation("nd_map_set", f"nd_map over {sz} ({cfg}): `calls, cells never visited, visited more than once, outside the box` = "
                                f"`{o}`, the box has {L.prod(sz)} cells", {"big": sz, "cfg": cfg}, impl=o, model=want, oracle_fails=True,
                                key={"kind": "ndbig", "sz": sz}, cfg=cfg)
+    # boxes too large to walk (2^32 tuples and more): the callback stops the iteration after K calls; until then every call
+    # must be a new tuple of the box, and nd_map must not return before it has made K calls (the box has more tuples than that)
+    if big:
+        K = 150000
+        huge = [[65536, 65536], [65536, 65537], [2 ** 32 + 3], [256, 256, 256, 256, 1], [3, 2 ** 31], [2 ** 20, 2 ** 20, 2], [5, 2 ** 32], [2 ** 33, 1, 2]]
+        for cfg in [c for c in cfgs if c in ("dbg", "rel")][:2]:
+            houts, _ = C.run_lines(exes[("numeric", cfg)], [f"ndhuge {K} {len(sz)} " + " ".join(map(str, sz)) for sz in huge], timeout_per_line=30, min_timeout=240)
+            for sz, o in zip(huge, houts):
+                corr.configs[cfg] += 1
+                corr.case(("huge", sz, cfg), True)
+                corr.dist["huge/dim%d" % len(sz)] += 1
+                want = f"{K} 0 0 threw"
+                bad = o != want
+                corr.add_obl("nd_map_set", 1, 1 if bad else 0)
+                if bad:
+                    corr.violation("nd_map_set", f"nd_map over {sz} ({cfg}, {L.prod(sz)} tuples), stopped by the callback after {K} calls: "
+                                   f"`calls, outside the box, seen twice, how it ended` = `{o}`", {"huge": sz, "cfg": cfg}, impl=o, model=want,
+                                   oracle_fails=True, key={"kind": "ndhuge", "sz": sz}, cfg=cfg)
     corr.obl["nd_map_seq"]["note"] = "information only: call order equals the model's (lexicographic) order"
     # order is not part of the property: never let it fail the check
     corr.obl["nd_map_seq"]["disagreements_info"] = corr.obl["nd_map_seq"]["disagreements"]
     corr.obl["nd_map_seq"]["disagreements"] = 0
-    szof = lambda v: v["case"].get("sz") or v["case"].get("big") or []
+    szof = lambda v: v["case"].get("sz") or v["case"].get("big") or v["case"].get("huge") or []
     corr.violations.sort(key=lambda v: (not v["oracle_fails"], len(szof(v)), L.prod([s + 1 for s in szof(v)])))
     return corr
 
@@ -122,6 +140,8 @@ def replay(ctx):
     c = ctx.replay["case"]
     if "big" in c:
         return evaluate(ctx, [], [c.get("cfg", "rel")], [c["big"]])
+    if "huge" in c:        # the fixed list of unwalkable boxes runs whenever large boxes are checked
+        return evaluate(ctx, [], [c.get("cfg", "rel")], [[2, 2]])
     seq = [(c.get("ty", "u64"), c["sz"])]
     if c.get("previous_call_in_same_process"):
         seq.insert(0, tuple(c["previous_call_in_same_process"]))     # the failure may depend on the call before it
